@@ -481,3 +481,53 @@ Qed.
 Definition scale_ln (lo hi y : R) : R := ln ((1 + (2 * (y - lo) / (hi - lo) - 1)) / (1 - (2 * (y - lo) / (hi - lo) - 1))) / 2.
 Lemma scale_ln_eq lo hi y : sq_scale Rops atanh true lo hi y = scale_ln lo hi y.
 Proof. reflexivity. Qed.
+
+(* keeps_init / keeps_log hold of the wrapped environment and are preserved by the wrappers: the hypotheses of
+   auto_fixed_history / log_wrap_scan are met by every stack *)
+Section StackLaws.
+Context {A : Type} (O : ops A).
+Variables (C IB Rng : Type) (th : A -> A) (split : Rng -> Rng * Rng).
+Variable base_reset : Rng -> C * Rng * obs (A:=A) * IB.
+Variable base_step : C -> Rng -> act (A:=A) -> C * Rng * obs (A:=A) * A * bool * bool * IB.
+Variable base_space : C -> list A * list A.
+Local Notation stack := (stack O C IB Rng th split base_reset base_step base_space).
+Local Notation base := (base C IB Rng base_reset base_step base_space).
+Local Notation env := (env (A:=A) C IB Rng).
+Implicit Types e : env.
+
+Lemma keeps_base : keeps_init C IB Rng base /\ keeps_log C IB Rng base.
+Proof. split; intros g a; simpl; destruct (base_step (g_core g) (g_rng g) a) as [[[[[[c r] o] rw] te] tr] i]; reflexivity. Qed.
+Lemma keeps_auto_fixed e : keeps_log C IB Rng e -> keeps_log C IB Rng (auto_fixed e).
+Proof.
+  intros H g a. specialize (H g a). simpl. destruct (e_step e g a) as [[[[[g1 o] r] te] tr] i]. unfold r_gs in *; simpl in *.
+  destruct (a_init g1) as [[[c0 o0] i0]|]; [|exact H]. destruct (te || tr); exact H.
+Qed.
+Lemma keeps_auto_fresh e : (keeps_init C IB Rng e -> keeps_init C IB Rng (auto_fresh split e)) /\
+                           (keeps_log C IB Rng e -> keeps_log C IB Rng (auto_fresh split e)).
+Proof.
+  split; intros H g a; specialize (H g a); simpl; destruct (e_step e g a) as [[[[[g1 o] r] te] tr] i]; unfold r_gs in *; simpl in *;
+    destruct (split (g_rng g1)) as [n ri]; destruct (e_reset e ri) as [[ig io] ii]; destruct (te || tr); exact H.
+Qed.
+Lemma keeps_log_wrap e : keeps_init C IB Rng e -> keeps_init C IB Rng (log_wrap O e).
+Proof.
+  intros H g a; specialize (H g a); simpl; destruct (e_step e g a) as [[[[[g1 o] r] te] tr] i]; unfold r_gs in *; simpl in *.
+  destruct (a_log g1); exact H.
+Qed.
+Lemma keeps_squash_wrap sq e : (keeps_init C IB Rng e -> keeps_init C IB Rng (squash_wrap O th sq e)) /\
+                               (keeps_log C IB Rng e -> keeps_log C IB Rng (squash_wrap O th sq e)).
+Proof. split; intros H g a; simpl; destruct (a_sq g); apply H. Qed.
+Lemma keeps_clip_wrap e : (keeps_init C IB Rng e -> keeps_init C IB Rng (clip_wrap O e)) /\
+                          (keeps_log C IB Rng e -> keeps_log C IB Rng (clip_wrap O e)).
+Proof. split; intros H g a; simpl; destruct (e_space e g); apply H. Qed.
+
+Theorem stack_keeps ws : keeps_init C IB Rng (stack ws) /\ (~ In WLog ws -> keeps_log C IB Rng (stack ws)).
+Proof.
+  induction ws as [|w ws IH] using rev_ind; [split; [|intros _]; apply keeps_base|].
+  unfold RlEnv.stack in *. rewrite fold_left_app. cbn [fold_left]. destruct IH as [I1 I2].
+  set (e := fold_left _ ws _) in *. split.
+  - destruct w; simpl; [apply keeps_init_auto_fixed|apply keeps_auto_fresh|apply keeps_log_wrap|apply keeps_squash_wrap|apply keeps_clip_wrap]; exact I1.
+  - intros Hn. assert (Hws : ~ In WLog ws) by (intros X; apply Hn, in_or_app; now left). specialize (I2 Hws).
+    destruct w; simpl; [apply keeps_auto_fixed|apply keeps_auto_fresh| |apply keeps_squash_wrap|apply keeps_clip_wrap]; try exact I2.
+    exfalso. apply Hn, in_or_app. right. now left.
+Qed.
+End StackLaws.
